@@ -19,87 +19,120 @@ import (
 
 func d8ClosedTests(p *Prog, o *obls, isLifecycle func(map[string]bool) bool) {
 	n := 0
-	for _, fn := range p.Funcs {
-		if fn.Blocks == nil {
-			continue
-		}
-		res := fn.Signature.Results()
-		if res.Len() == 0 || !isErrorType(res.At(res.Len()-1).Type()) {
-			continue
-		}
-		ei := res.Len() - 1
-		// returnsError: control entering block b returns a non-nil error without branching
-		returnsError := func(b *ssa.BasicBlock) bool {
-			for i := 0; i < 3 && b != nil; i++ {
-				switch last := b.Instrs[len(b.Instrs)-1].(type) {
-				case *ssa.Return:
-					if ei >= len(last.Results) {
+	// pass 1 finds the functions that test the predicate themselves; pass 2 adds the functions that delegate to one
+	// of those and return its error (WriteRTCP → writeRTCP): there the call is the test
+	instances := map[*ssa.Function]bool{}
+	for pass := 1; pass <= 2; pass++ {
+		for _, fn := range p.Funcs {
+			if fn.Blocks == nil || (pass == 2 && instances[fn]) {
+				continue
+			}
+			res := fn.Signature.Results()
+			if res.Len() == 0 || !isErrorType(res.At(res.Len()-1).Type()) {
+				continue
+			}
+			ei := res.Len() - 1
+			// returnsError: control entering block b returns a non-nil error without branching
+			returnsError := func(b *ssa.BasicBlock) bool {
+				for i := 0; i < 3 && b != nil; i++ {
+					switch last := b.Instrs[len(b.Instrs)-1].(type) {
+					case *ssa.Return:
+						if ei >= len(last.Results) {
+							return false
+						}
+						if c, ok := returnedValue(last, ei).(*ssa.Const); ok && c.IsNil() {
+							return false
+						}
+						return true
+					case *ssa.Jump:
+						b = b.Succs[0]
+					default:
 						return false
 					}
-					if c, ok := returnedValue(last, ei).(*ssa.Const); ok && c.IsNil() {
-						return false
+				}
+				return false
+			}
+			type testPoint struct {
+				at   ssa.Instruction
+				what string
+			}
+			var tests []testPoint
+			for _, b := range fn.Blocks {
+				// (a) if x.isClosed() { return ErrClosed }
+				if c := ifCond(b); c != nil && len(b.Succs) == 2 {
+					for i := 0; i < 2; i++ {
+						f := normFact(condFact{c, i == 0})
+						call, ok := f.cond.(*ssa.Call)
+						if !ok || !f.truth {
+							continue
+						}
+						sc := call.Call.StaticCallee()
+						if sc == nil || !p.InUniverse(sc) || !isClosedPredicate(p, sc, isLifecycle) {
+							continue
+						}
+						if returnsError(b.Succs[i]) {
+							tests = append(tests, testPoint{b.Instrs[len(b.Instrs)-1], "the test of " + sc.Name() + "()"})
+						}
 					}
-					return true
-				case *ssa.Jump:
-					b = b.Succs[0]
-				default:
-					return false
 				}
 			}
-			return false
-		}
-		type testPoint struct {
-			at   ssa.Instruction
-			what string
-		}
-		var tests []testPoint
-		for _, b := range fn.Blocks {
-			// (a) if x.isClosed() { return ErrClosed }
-			if c := ifCond(b); c != nil && len(b.Succs) == 2 {
-				for i := 0; i < 2; i++ {
-					f := normFact(condFact{c, i == 0})
-					call, ok := f.cond.(*ssa.Call)
-					if !ok || !f.truth {
-						continue
+			if pass == 2 {
+				instrsOf(fn, func(in ssa.Instruction) {
+					call, ok := in.(*ssa.Call)
+					if !ok {
+						return
 					}
 					sc := call.Call.StaticCallee()
-					if sc == nil || !p.InUniverse(sc) || !isClosedPredicate(p, sc, isLifecycle) {
-						continue
+					if sc == nil || !instances[sc] {
+						return
 					}
-					if returnsError(b.Succs[i]) {
-						tests = append(tests, testPoint{b.Instrs[len(b.Instrs)-1], "the test of " + sc.Name() + "()"})
+					// its error is what this function returns on some path
+					var ev ssa.Value = call
+					if fe := errExtract(call); fe != nil {
+						ev = fe
 					}
-				}
+					for _, b := range fn.Blocks {
+						if ret, ok := b.Instrs[len(b.Instrs)-1].(*ssa.Return); ok && ei < len(ret.Results) {
+							if p.backwardReaches(returnedValue(ret, ei), func(v ssa.Value) bool { return v == ev }) {
+								tests = append(tests, testPoint{call, "the call of " + sc.Name() + " (which tests the closed predicate)"})
+								return
+							}
+						}
+					}
+				})
 			}
-		}
-		if len(tests) == 0 {
-			continue
-		}
-		n++
-		var bad []string
-		for _, b := range fn.Blocks {
-			ret, ok := b.Instrs[len(b.Instrs)-1].(*ssa.Return)
-			if !ok || b == fn.Recover || ei >= len(ret.Results) {
+			if len(tests) == 0 {
 				continue
 			}
-			if c, ok := returnedValue(ret, ei).(*ssa.Const); !ok || !c.IsNil() {
-				continue
+			if pass == 1 {
+				instances[fn] = true
 			}
-			dominated := false
-			for _, t := range tests {
-				if t.at.Block() == b || t.at.Block().Dominates(b) {
-					dominated = true
+			n++
+			var bad []string
+			for _, b := range fn.Blocks {
+				ret, ok := b.Instrs[len(b.Instrs)-1].(*ssa.Return)
+				if !ok || b == fn.Recover || ei >= len(ret.Results) {
+					continue
+				}
+				if c, ok := returnedValue(ret, ei).(*ssa.Const); !ok || !c.IsNil() {
+					continue
+				}
+				dominated := false
+				for _, t := range tests {
+					if t.at.Block() == b || t.at.Block().Dominates(b) {
+						dominated = true
+					}
+				}
+				if !dominated {
+					bad = append(bad, p.instrPos(ret))
 				}
 			}
-			if !dominated {
-				bad = append(bad, p.instrPos(ret))
+			key := funcKey(fn) + ":closed-test"
+			if len(bad) > 0 {
+				o.bad("D8", key, p.instrPos(tests[0].at), fmt.Sprintf("the function fails with an error once the object is closed (%s at %s), but the successful return at %s can be reached without passing that test: after Close such calls are accepted silently instead of failing with the closed error", tests[0].what, p.instrPos(tests[0].at), strings.Join(dedupe(bad), ", ")))
+			} else {
+				o.ok("D8", key, p.instrPos(tests[0].at), "every successful return is dominated by "+tests[0].what)
 			}
-		}
-		key := funcKey(fn) + ":closed-test"
-		if len(bad) > 0 {
-			o.bad("D8", key, p.instrPos(tests[0].at), fmt.Sprintf("the function fails with an error once the object is closed (%s at %s), but the successful return at %s can be reached without passing that test: after Close such calls are accepted silently instead of failing with the closed error", tests[0].what, p.instrPos(tests[0].at), strings.Join(dedupe(bad), ", ")))
-		} else {
-			o.ok("D8", key, p.instrPos(tests[0].at), "every successful return is dominated by "+tests[0].what)
 		}
 	}
 	o.ok("D8", "inspected", "-", fmt.Sprintf("%d function(s) that fail with an error on the closed branch of a lifecycle test", n))
